@@ -137,8 +137,24 @@ def run_config(cfg):
                 est2.set_params(**{flag: cfg2["bias"] if flag == "poly_include_bias" else cfg2["io"]})
                 est2.fit(numpy.zeros((3, n)))
                 e.prove(est2.n_output_features_ == powers2.shape[0] and len(est2.get_feature_names_out()) == powers2.shape[0], "refit-after-set_params/" + flag + "/n_output_features_", detail=(est2.n_output_features_, powers2.shape[0]))
-                out2 = est2.transform(e.reals("v", 1, n))
+                V = e.reals("v", 1, n)
+                try:
+                    out2 = est2.transform(V)
+                except Exception as ex:  # noqa: BLE001 - the code under test raising on valid input is a finding
+                    e.prove(False, "refit-after-set_params/" + flag + "/transform-shape", detail=f"raises {type(ex).__name__}: {str(ex)[:80]}")
+                    continue
                 e.prove(out2.shape == (1, powers2.shape[0]), "refit-after-set_params/" + flag + "/transform-shape", detail=out2.shape)
+                if out2.shape == (1, powers2.shape[0]):
+                    for j in range(powers2.shape[0]):
+                        mono = 1
+                        for i in range(n):
+                            for _ in range(int(powers2[j, i])):
+                                mono = mono * V[0, i]
+                        got = out2[0, j]
+                        if got is None or not (sx.is_sym(got) or isinstance(got, (int, float, Fraction))):
+                            e.prove(False, "refit-after-set_params/" + flag + "/cell", detail=j)
+                        else:
+                            e.prove_eq(got, mono, "refit-after-set_params/" + flag + "/cell", detail=j)
 
     eng = sx.Engine(name=f"C11{cfg}")
     eng.explore(h)
@@ -169,9 +185,14 @@ def replay(cfg, inputs, label):
         est2 = _make(cfg).fit(numpy.zeros((2, n)))
         est2.set_params(**{flag: cfg2["bias"] if flag == "poly_include_bias" else cfg2["io"]})
         est2.fit(numpy.zeros((3, n)))
-        shape = est2.transform(numpy.ones((1, n))).shape
-        if est2.n_output_features_ != powers2.shape[0] or shape != (1, powers2.shape[0]):
-            return True, dict(history=f"fit, set_params({flag}=...), fit again (same width)", n_output_features_=int(est2.n_output_features_), transform_shape=list(shape), expected_columns=int(powers2.shape[0]))
+        Xr = numpy.arange(2.0, 2.0 + 2 * n).reshape(2, n) / 2
+        try:
+            got = est2.transform(Xr)
+        except Exception as ex:
+            return True, dict(history=f"fit, set_params({flag}=...), fit again (same width), transform", raised=f"{type(ex).__name__}: {str(ex)[:160]}")
+        ref = pf2.transform(Xr)
+        if est2.n_output_features_ != powers2.shape[0] or got.shape != ref.shape or not numpy.allclose(got, ref):
+            return True, dict(history=f"fit, set_params({flag}=...), fit again (same width)", n_output_features_=int(est2.n_output_features_), transform_shape=list(got.shape), expected_columns=int(powers2.shape[0]), first_row=got[0].tolist()[:8], expected_first_row=ref[0].tolist()[:8])
         return False, "refit follows the new flag"
     pf, powers = _oracle(cfg)
     est = _make(cfg)
